@@ -255,11 +255,32 @@ def neighbours(rng, cases):
 
 
 def shrink(case):
+    """smaller candidates first (the runner keeps the first one that still fails): the configuration with fewer and
+    fewer trailing operations, then the case with one operation removed, then with one attribute list emptied"""
     secs = case.split(" | ")
-    # try removing operations one at a time (never the five configuration sections)
-    for i in range(len(secs) - 1, 4, -1):
-        if not secs[i].startswith("LK") or True:
-            yield " | ".join(secs[:i] + secs[i + 1:])
+    head, rest = secs[:5], secs[5:]
+    if "PAR" in rest:
+        # threaded case: halve every thread
+        out, cur = [], None
+        groups = []
+        for x in rest:
+            groups.append(x)
+        idx = [i for i, x in enumerate(rest) if x in ("TH", "SEQ")]
+        for frac in (8, 4, 2):
+            cand = []
+            for a, b in zip([rest.index("PAR")] + idx, idx + [len(rest)]):
+                seg = rest[a + 1:b]
+                cand += [rest[a]] + (seg[:max(1, len(seg) // frac)] if rest[a] != "SEQ" else seg)
+            yield " | ".join(head + cand)
+        return
+    for k in range(0, len(rest)):
+        yield " | ".join(head + rest[:k])
+        yield " | ".join(head + rest[:k] + ["END 0"])
+    for i in range(len(rest)):
+        yield " | ".join(head + rest[:i] + rest[i + 1:])
+    for i, x in enumerate(secs):
+        if " ; " in x:
+            yield " | ".join(secs[:i] + [x.split(" ; ")[0]] + secs[i + 1:])
 
 
 LEVEL_TEXT = ("Theorems in coq/Properties_C04.v about the Gallina model of sdk::trace::Span over MultiRecordable/SpanData/AttributeMap and of the "
